@@ -348,7 +348,9 @@ def fill_query_params(query, params):
     def params_replace(node, **kwargs):
         if isinstance(node, ast.Parameter):
             value = params.pop(0)
-            return ast.Constant(value)
+            constant = ast.Constant(value, alias=node.alias)
+            constant.parentheses = node.parentheses
+            return constant
 
     # put parameters into query
     query_traversal(query, params_replace)
